@@ -23,7 +23,8 @@ PROPS = {
         R("rand", "32", "core", 60, 80, mode="unscripted"), R("rand", "32", "prims", 1, 1, thor=(2, 1)),
         R("randfast", "32", "core", 80, 80), R("rand", "32", "inline", 1, 1)]),
     "C03": dict(tags=["C03"], runs=[
-        R("rand", "typed", "fits", 1, 1), R("rand", "typed", "typed", 120, 60), R("rand", "typed", "typediter", 30, 40)]),
+        R("rand", "typed", "fits", 1, 1), R("rand", "typed", "typed", 120, 60), R("rand", "typed", "typediter", 30, 40),
+        R("rand", "typed", "typedinline", 1, 1)]),
     "C04": dict(tags=["C04"], runs=[
         R("rand", "64", "iter", 160, 50), R("rand", "32", "iter", 160, 50), R("det", "64", "iter", 80, 50),
         R("rand", "typed", "typediter", 60, 40)]),
